@@ -152,6 +152,25 @@ PROPS["C15"] = A("TestSim_C15",
     assumptions=COMMON_ASSUME + ["an action that falls on the exact instant of the establishment timeout is judged leniently (timer and request are concurrent)",
         "media payloads are opaque strings; ICE server configuration is a fixed stub"])
 
+PROPS["C18"] = {
+    "engine": "sqlfault", "level": "fault_enumeration", "test": "TestSQLFault",
+    "rule": "complete enumeration, MySQL adapter: for each of the 20 transactional adapter operations (plus 13 single-statement writes checked for error reporting only) x argument shapes "
+            "(81 in all) x result scripts (every query returns 0, 1 or 2 rows; every exec reports 0 or 1 affected rows) the fault-free statement stream of length n is recorded against a fake "
+            "database/sql driver, then the operation is re-run on a fresh connection pool with a fault at every statement position k = 1..n (BEGIN, every Exec/Query/Prepare, COMMIT) for each "
+            "fault kind: generic error, duplicate key (MySQL 1062), connection loss (driver.ErrBadConn, the connection stays broken), deadline (statement blocks until its context expires; "
+            "sql_timeout = tx timeout = 50 ms). One evaluation = one (operation, shape, script, k, fault) run of the real adapter method; non-trivial = a run with an injected fault; all are distinct by construction. "
+            "Oracle over the recorded stream and the return value: at most one BEGIN and no write outside it; after a failed statement no COMMIT, the transaction ended by ROLLBACK (or the broken "
+            "connection discarded) and a non-nil error returned; without a failure exactly one COMMIT (or a documented sentinel error with ROLLBACK); a failing COMMIT is reported; after return "
+            "no connection is in use and none is inside a transaction; every statement of a deadline run is bound to a context that can expire. Duplicate keys that the adapter handles by design "
+            "(INSERT falls back to UPDATE, duplicate tag ignored) are listed as notes.",
+    "assumptions": ["the fake database executes no SQL: WHAT a committed transaction wrote is not checked, only that the operation is one transaction that commits or rolls back as a whole (the all-or-nothing "
+                    "effect itself is then the database's promise)",
+                    "MySQL adapter only; the PostgreSQL adapter shares the code shape (the one defect found was present in both and repaired in both) but is not enumerated: a fake pgx backend was not built",
+                    "a deadline on a statement issued through tx.Exec without its own context is delivered by the fake through the transaction context; the real driver can interrupt such a statement only when the connection is closed"],
+    "components": {"real": ["server/db/mysql adapter methods (unexported adapter struct, constructed directly)", "jmoiron/sqlx", "database/sql (pool, Tx, retry on ErrBadConn, rollback on context expiry)", "server/store uid codec"],
+                   "stub": ["database/sql/driver implementation: executes no SQL, returns synthetic rows typed from the adapter's own CREATE TABLE statements, records the statement stream, injects the faults"]},
+}
+
 NOT_APPLICABLE = {
     "C20": "pure functions of one input (id codecs, name spellings, JSON<->protobuf converters): no schedule, clock, fault, crash point or second party for a simulator to decide; see DESIGN.md section 6",
 }
